@@ -1,6 +1,6 @@
 (* C11 — MINRES solves all shifted systems; contour quadrature gives the matrix root.
    Proof obligations (statements only; proofs are in ProofsRefine.v / ProofsAny.v / ProofsExact.v /
-   ProofsResidual.v / ProofsCIQ.v).  Everything is about the transcription coq/C11/Model.v of
+   ProofsResidual.v / ProofsLanczos.v / ProofsMinimal.v / ProofsCIQ.v).  Everything is about the transcription coq/C11/Model.v of
    linear_operator/utils/minres.py, utils/contour_integral_quad.py, functions/_sqrt_inv_matmul.py.
 
    Quantification: every theorem holds for ALL sizes n, ALL numbers of columns / batch members, ALL
@@ -9,13 +9,17 @@
    arbitrary real closed field (exact arithmetic, x/0 = 0).  `Section ContourQuadrature`: MathComp
    matrices over an arbitrary field.
 
-   NOT PROVED (DESIGN.md section 6; the property is claimed PARTIAL): that the MINRES iterates converge to
-   the solutions of the shifted systems (Paige-Saunders: needs orthogonality of the Lanczos vectors and the
-   minimal-residual characterisation) and the accuracy of the elliptic-function quadrature rule.  Both enter
-   the CIQ theorems as explicit hypotheses (`exact solves`, `scalar rule`) and are checked numerically on
-   the implementation by harness/c11.py (support only). *)
+   NOT PROVED (DESIGN.md section 6; the property is claimed PARTIAL): that the MINRES iterates CONVERGE to the
+   solutions of the shifted systems.  Proved (Section Orthogonality, exact arithmetic, symmetric matrix, no
+   preconditioner, no Lanczos breakdown so far): the Lanczos vectors are orthonormal, the scale term is the true
+   residual norm and the iterate is the minimal-residual iterate over the Krylov space; what happens at an exact
+   breakdown.  Missing: that this minimum is small (polynomial bound / lower bound on dg0 at the breakdown step), the
+   clamp being active without exact breakdown, preconditioned runs, rounding; and the accuracy of the
+   elliptic-function quadrature rule.  Exact solves and the scalar quadrature rule enter the CIQ theorems as explicit
+   hypotheses (`exact solves`, `scalar rule`) and are checked numerically on the implementation by harness/c11.py
+   (support only). *)
 From mathcomp Require Import all_ssreflect all_algebra.
-Require Import C11.Model C11.ProofsRefine C11.ProofsAny C11.ProofsExact C11.ProofsResidual C11.ProofsLanczos C11.ProofsCIQ.
+Require Import C11.Model C11.ProofsRefine C11.ProofsAny C11.ProofsExact C11.ProofsResidual C11.ProofsLanczos C11.ProofsMinimal C11.ProofsCIQ.
 Set Implicit Arguments.
 Unset Strict Implicit.
 Unset Printing Implicit Defensive.
@@ -229,7 +233,7 @@ Proof. move=> np he ht hl hq hj hi hnz; exact: (minres_output_residual np he ht 
    first k bodies (the argument of beta_curr.clamp_min_(eps) is >= eps, i.e. the clamp is inactive).  Then the
    Lanczos vectors z_1 .. z_{k+1} of the loop are orthonormal, and the squared norm of the TRUE residual of the k-th
    iterate of every shifted system equals scale_prev_k^2: the code's scale term is the residual norm, which by
-   C11_scale_nonincreasing never grows.  (Behaviour at breakdown and minimality of the residual: NOT proved.) *)
+   C11_scale_nonincreasing never grows; the iterate is the minimal-residual iterate (C11_minres_minimal_residual). *)
 Section Orthogonality.
 Variables (Q C n : nat) (mm : cols R -> cols R) (value : option R) (shifts : qc R) (eps : R).
 Variable M : nat -> nat -> nat -> R.
@@ -250,8 +254,8 @@ Theorem C11_lanczos_orthonormal k a b :
   \sum_(i < n) cg2 AR (zp1 (iter a)) j i * cg2 AR (zp1 (iter b)) j i = (a == b)%:R.
 Proof.
 move=> nb ha hb.
-have nb' : forall m, (m < k)%N -> no_breakdown mm value shifts eps M j rhs m.
-  by move=> m hm; apply/(no_breakdown_model Q eps_pos mm_lin hj); apply: nb.
+have nb' : forall m, (m < k)%N -> no_breakdown Q C n mm value shifts eps M j rhs m.
+  by move=> m hm; apply/(no_breakdown_model Q value shifts eps mm_lin hj rhs m); apply: nb.
 exact: (lanczos_orthonormal eps_pos mm_lin M_sym hj rhs_nz nb' ha hb).
 Qed.
 
@@ -263,12 +267,87 @@ Theorem C11_minres_residual_norm k q :
   = qget AR (scp (iter k)) q j ^+ 2.
 Proof.
 move=> nb hq.
-have nb' : forall m, (m < k)%N -> no_breakdown mm value shifts eps M j rhs m.
-  by move=> m hm; apply/(no_breakdown_model Q eps_pos mm_lin hj); apply: nb.
+have nb' : forall m, (m < k)%N -> no_breakdown Q C n mm value shifts eps M j rhs m.
+  by move=> m hm; apply/(no_breakdown_model Q value shifts eps mm_lin hj rhs m); apply: nb.
 exact: (residual_norm_is_scale eps_pos mm_lin M_sym hj rhs_nz hq nb').
 Qed.
 
+(* THE MINIMAL-RESIDUAL PROPERTY.  Same hypotheses.  The shifted operator A_s = value*K + s_q I on vectors given as functions
+   of the index, and the Krylov vectors b^, (value K) b^, (value K)^2 b^, ... : *)
+Definition C11_shifted_op (q : nat) (f : nat -> R) (i : nat) : R :=
+  (\sum_(l < n) M j i l * f l) * (if value is Some a then a else 1) + qget AR shifts q j * f i.
+Fixpoint C11_krylov (m : nat) : nat -> R :=
+  if m is m'.+1 then fun i => (\sum_(l < n) M j i l * C11_krylov m' l) * (if value is Some a then a else 1)
+  else cg2 AR rhs j.
+
+(* for every shift q and EVERY vector y = sum_{m<k} c_m (value K)^m b^ of the k-dimensional Krylov space (every choice of
+   the coefficients c), the residual of the iterate after k loop bodies is not larger than the residual of y:
+   x_k is the minimal-residual iterate of (value K + s_q I) x = b^ over the Krylov space. *)
+Theorem C11_minres_minimal_residual k q (c : nat -> R) :
+  (forall m, (m < k)%N -> C11_no_breakdown m) -> (q < Q)%N ->
+  \sum_(i < n) (cg2 AR rhs j i - C11_shifted_op q (fun l => xget AR (sol (iter k)) q j l) i) ^+ 2
+  <= \sum_(i < n) (cg2 AR rhs j i - C11_shifted_op q (fun l => \sum_(m < k) c m * C11_krylov m l) i) ^+ 2.
+Proof.
+move=> nb hq.
+have nb' : forall m, (m < k)%N -> no_breakdown Q C n mm value shifts eps M j rhs m.
+  by move=> m hm; apply/(no_breakdown_model Q value shifts eps mm_lin hj rhs m); apply: nb.
+exact: (@minres_minimal_residual R Q C n mm value shifts eps eps_pos M mm_lin q j hq hj rhs M_sym rhs_nz k c C11_krylov
+          (fun _ => erefl) (fun _ _ => erefl) nb').
+Qed.
+
+(* the range of k in the three theorems above: orthonormal z_1..z_{k+1} need k + 1 <= n, so a clamp must become active
+   (Lanczos breakdown) during the first n bodies *)
+Theorem C11_lanczos_breakdown_within_n k : (forall m, (m < k)%N -> C11_no_breakdown m) -> (k < n)%N.
+Proof.
+move=> nb; apply: (@lanczos_breakdown_within_n R Q C n mm value shifts eps eps_pos M mm_lin j hj rhs M_sym rhs_nz k).
+by move=> m hm; apply/(no_breakdown_model Q value shifts eps mm_lin hj rhs m); apply: nb.
+Qed.
+
+(* what the body does AT an exact breakdown (the unnormalised Lanczos vector of body k is the zero vector, as happens in
+   exact arithmetic when the Krylov space becomes invariant): beta is clamped to eps, the new z is 0, and the residual
+   VECTOR of every shifted system is multiplied by sin^2 = eps^2 / (dg0^2 + eps^2), dg0 the rotated diagonal entry
+   (line 258).  Needs neither symmetry nor orthogonality.  (A lower bound on |dg0| is NOT proved.) *)
+Theorem C11_minres_exact_breakdown_step k q :
+  (forall i, (i < n)%N -> cg2 AR (lz_w AR C n mm value (iter k)) j i = 0) -> (q < Q)%N ->
+  let s := g_sin (R:=R) C n mm (fun X => X) value shifts eps (iter k) q j in
+  [/\ sget AR (bprev (iter k.+1)) j = eps,
+      forall i, (i < n)%N -> cg2 AR (zp1 (iter k.+1)) j i = 0,
+      s = eps / Num.sqrt (g_dg0 (R:=R) C n mm value shifts (iter k) q j ^+ 2 + eps ^+ 2)
+    & forall i, (i < n)%N ->
+        cg2 AR rhs j i - C11_shifted_op q (fun l => xget AR (sol (iter k.+1)) q j l) i
+        = s ^+ 2 * (cg2 AR rhs j i - C11_shifted_op q (fun l => xget AR (sol (iter k)) q j l) i)].
+Proof.
+move=> hw hq.
+apply: (@breakdown_step R Q C n mm value shifts eps eps_pos M mm_lin q j hq hj rhs k).
+by move=> i hi; rewrite -(w_eq Q value shifts eps mm_lin hj rhs k hi); exact: hw.
+Qed.
+
 End Orthogonality.
+
+(* the hypotheses of Section Orthogonality are satisfiable, and so is the exact-breakdown hypothesis: K = [[0,1],[1,0]]
+   (symmetric, indefinite), b^ = e_1, one shift, eps = 1.  Then z_1 = e_1, z_2 = e_2: no breakdown at body 0, so the theorems
+   apply with k = 1 = n - 1 (the largest k C11_lanczos_breakdown_within_n allows), and the unnormalised Lanczos vector of
+   body 1 is exactly 0 (hypothesis of C11_minres_exact_breakdown_step with k = 1) *)
+Example C11_orthogonality_hypotheses_satisfiable :
+  let mm := fun X : cols R => ctab 1 2 (fun j i => cg2 AR X j (1 - i)) in
+  let M := fun (_ i l : nat) => if (i + l == 1)%N then (1 : R) else 0 in
+  let rhs : cols R := [:: [:: 1; 0]] in
+  let sh : qc R := [:: [:: 0]] in
+  [/\ forall X j i, (j < 1)%N -> (i < 2)%N -> cg2 AR (mm X) j i = \sum_(l < 2) M j i l * cg2 AR X j l,
+      forall j i l, M j i l = M j l i,
+      0 < \sum_(i < 2) cg2 AR rhs 0 i * cg2 AR rhs 0 i,
+      forall m, (m < 1)%N -> C11_no_breakdown 1 1 2 mm None sh 1 0 rhs m
+    & forall i, (i < 2)%N ->
+        cg2 AR (lz_w AR 1 2 mm None (st_iter AR 1 1 2 mm (fun X => X) None sh 1 1 (st_init AR 1 1 2 (fun X => X) rhs))) 0 i = 0].
+Proof.
+split.
+- exact: ex_lin.
+- exact: ex_sym.
+- by have := ex_nz1 R; rewrite /fdot => ->; exact: ltr01.
+- move=> [|//] _; apply/(no_breakdown_model 1 None (ex_shifts R) 1 (@ex_lin R) (ltnSn 0) (ex_rhs R) 0).
+  exact: ex_no_breakdown0.
+- by move=> i hi; rewrite (w_eq 1 None (ex_shifts R) 1 (@ex_lin R) (ltnSn 0) (ex_rhs R) 1 hi); exact: ex_W1.
+Qed.
 
 (* the hypotheses of C11_minres_scaling and C11_minres_output_residual are satisfiable: the 1 x 1 system
    1 * x = 1 with the identity closure, threshold 1, eps 1, scaling factor 2 *)
